@@ -218,6 +218,8 @@ var c20Corpus = []string{
 	`select ?c from ?g where { /u<a> "p"@[] ?c . ?c "p"@[] "x"^^type:text } ;`,
 	`select ?s, ?o, ?z from ?g where { ?s "p"@[] ?o . optional { ?o "p"@[] ?z } } ;`,
 	`select ?x from ?g, ?h where { /u<a> as ?x "p"@[] /u<b> } ;`,
+	`select ?s, ?p, ?o from ?g where { ?s ?p ?o } limit "1"^^type:int64 ;`,
+	`select ?s, ?o from ?g where { ?s "p"@[] ?o } order by ?s limit "1"^^type:int64 ;`,
 	`select ?x, ?o from ?g where { /u<a> as ?x "p"@[] /u<b> . ?x "q"@[] ?o } ;`,
 	`insert data into ?g { /u<x> "p"@[] /u<y> } ;`,
 	`insert data into ?g, ?h { /u<x> "p"@[] /u<y> } ;`,
